@@ -22,6 +22,7 @@ from qiskit.circuit import Qubit
 from qiskit.circuit import Gate
 from numpy import sqrt, outer
 from numpy.linalg import eig
+from scipy.linalg import schur
 
 from .mcx import LinearMcx
 from .util import check_u2
@@ -123,7 +124,10 @@ class Qdmcu(Gate):
 
     @staticmethod
     def custom_sqrtm(unitary):
-        eig_vals, eig_vecs = eig(unitary)
+        # The Schur form of a normal matrix is diagonal and its basis is unitary,
+        # even when the eigenvalues are (nearly) degenerate.
+        schur_form, eig_vecs = schur(unitary, output="complex")
+        eig_vals = schur_form.diagonal()
         first_eig = sqrt(eig_vals[0]) * outer(eig_vecs[:, 0], eig_vecs[:, 0].conj())
         second_eig = sqrt(eig_vals[1]) * outer(eig_vecs[:, 1], eig_vecs[:, 1].conj())
         return first_eig + second_eig
